@@ -43,7 +43,7 @@ def gen_c18(rng, tier):
 class C18(Prop):
     pid = "C18"
     title = "iterators"
-    thm_modules = ["PeliteModel.Thm.C18"]
+    thm_modules = ["PeliteModel.Thm.C18", "PeliteModel.Thm.C18Pgo"]
 
     @property
     def gens(self):
@@ -84,6 +84,11 @@ class C18(Prop):
 WRAP_FAMS = ("slice", "secbytes", "byrva", "byname", "hdrw", "derva", "derva_copy", "derva_into", "derva_slice", "derva_slice_s", "derva_cstr", "jsonsub", "relocs", "exports", "export", "imports", "iat", "rich", "res", "debug", "tls", "loadcfg", "exc", "security", "scan", "finds", "pat_exec")
 
 
+# top-level members of the serialized document that Model/JsonDirs.lean models whole: `jsonsub <k> <field>`
+# prints the member in canonical text on both sides (harness: read back from the real serde_json text)
+JSON_FIELDS = ["rich_structure", "exports", "imports", "base_relocs", "debug", "tls", "load_config", "security", "resources"]
+
+
 def gen_c19(rng, tier):
     """every wrapper-capable operation through wf/wv and through the specific constructor on the same image"""
     cases = []
@@ -115,7 +120,7 @@ def gen_c19(rng, tier):
         for mode, buf in (("f", data), ("v", view if view is not None else data)):
             ks, kw = "%s%d" % (mode, bits), "w" + mode
             case = [gen_img.img_line(rng, buf), "from_bytes " + kw, "from_bytes " + ks, "from_bytes %s%d" % (mode, 96 - bits)]
-            ops = ["hdrw %s", "jsonsub %s", "json %s", "relocs %s dump"]
+            ops = ["hdrw %s", "jsonsub %s", "json %s", "relocs %s dump"] + ["jsonsub %%s %s" % f for f in JSON_FIELDS]
             rvas = [0, 1, 0x1000, 0x1004, 0x2000, rng.randrange(0, 0x4000)] + ([(s.va + rng.randrange(0, max(s.rs, 1))) & 0xFFFFFFFF for s in pe.sections] if pe else [rng.randrange(0, max(len(buf), 1)) for _ in range(4)])
             for r in rvas:
                 ops += ["slice %%s 0x%x %d %d" % (r, rng.choice([0, 1, 8]), rng.choice([1, 2, 4])), "derva_copy %%s u32 0x%x" % r, "derva_cstr %%s 0x%x" % r,
@@ -133,7 +138,7 @@ class C19(Prop):
     named_errors = set()                  # error kinds: wrapper vs specific API are compared with each other exactly
     pid = "C19"
     title = "wrappers and JSON"
-    thm_modules = ["PeliteModel.Thm.C19"]
+    thm_modules = ["PeliteModel.Thm.C19", "PeliteModel.Thm.C19Wrap"]
 
     @property
     def gens(self):
